@@ -3,8 +3,8 @@ package cluster
 import (
 	"encoding/binary"
 	"fmt"
-	"os"
 	"io"
+	"os"
 	"sort"
 	"sync"
 	"sync/atomic"
